@@ -59,7 +59,7 @@ let () =
        Printf.printf "L %d %s %s %s %s\n" (int_of_lev !st.lk) (opt (lock_value !st)) (h !st.q) (h !st.u) (opt (presc_udot fops !st !tlast))
     | "END" :: _ -> inlock := false; print_string "END\n"
     | "RS" :: _ when !inlock ->
-       st := !deflt;
+       st := !deflt; tlast := 0.0;     (* a new default State: time 0 *)
        Printf.printf "L %d %s %s %s %s\n" (int_of_lev !st.lk) (opt (lock_value !st)) (h !st.q) (h !st.u) (opt (presc_udot fops !st !tlast))
     | o :: rest when !inlock ->
        let a = match rest with x :: _ -> x | [] -> "0" in let b = match rest with _ :: y :: _ -> y | _ -> "0" in
